@@ -277,7 +277,7 @@ structure ParseResult where
 
 inductive ParseOut where
   | ok (r : ParseResult)
-  | panic (why : String)
+  | panic (why : Why)
   | outOfFuel
 
 /-- `syntax::parse` -/
@@ -286,7 +286,7 @@ def parse (input : List Char) : ParseOut :=
   | .ok s =>
     match s.b.cur, s.b.parents with
     | [t], [] => .ok { tree := t, errors := s.errors.reverse, steps := s.steps }
-    | _, _ => .panic "builder.finish: not exactly one root"
+    | _, _ => .panic .rootCount
   | .panic w => .panic w
   | .outOfFuel => .outOfFuel
 
